@@ -158,14 +158,21 @@ def shard_exhaustive(ctx, shard):
                                     res.violations.append(v.record())
                                 continue
                             res.case(case['src'], True, sample=case['src'], classes=['ex:' + cx[0]] + nontrivial(groups, seps))
-    # long bodies: several hundred tokens inside one bracket / brace group
+    # long bodies: ~400 tokens inside one bracket / brace group in every context; 2 500 and 9 000 tokens in every fifth;
+    # a trailing bracket group about 100 characters long
     for cx in CONTEXTS:
         count += 1
-        if count % nshard == idx:
-            long_b = ''.join('{w%d}' % k for k in range(130))       # ~400 tokens, no bracket inside
-            long_B = ' '.join('\\y{%d}' % k for k in range(150))
-            for groups in ([('[', long_b), ('{', 'b'), ('{', 'c')], [('[', 'a'), ('[', long_b), ('{', long_B)], [('{', long_B), ('{', 'z')]):
+        if count % nshard != idx:
+            continue
+        for scale in ((1,) if count % 5 else (1, 6, 22)):
+            long_b = ''.join('{w%d}' % k for k in range(130 * scale))       # no bracket inside
+            long_B = ' '.join('\\y{%d}' % k for k in range(150 * scale))
+            tail = 'w' * (88 + count % 9) + '\\emph{a}'
+            for groups in ([('[', long_b), ('{', 'b'), ('{', 'c')], [('[', 'a'), ('[', long_b), ('{', long_B)], [('{', long_B), ('{', 'z')],
+                           [('{', 'k'), ('[', tail)], [('{', 'k'), ('[', 'w' * (99 + count % 4))]):
                 for sep in ('', ' '):
+                    if sep and groups[0][0] == '{' and groups[-1][0] == '[':
+                        continue        # a late bracket group attaches only when adjacent (outside the stated shape otherwise)
                     total += 1
                     try:
                         case = check_case('tgt', groups, [sep] * len(groups), ' t', cx, 'long-body')
@@ -174,7 +181,7 @@ def shard_exhaustive(ctx, shard):
                             seen.add(v.kind)
                             res.violations.append(v.record())
                         continue
-                    res.case(case['src'], True, sample=case['src'][:120] + '...', classes=['long-body:%s' % cx[0]])
+                    res.case(case['src'], True, sample=case['src'][:120] + '...', classes=['long-body:%s' % cx[0], 'long-body-scale:%d' % scale])
     # long runs: every count of bracket / brace groups up to 12 (no arity folklore in the parser)
     for cx in CONTEXTS:
         for nb in range(0, 13):
